@@ -315,7 +315,7 @@ def check(an: Analysis) -> None:
             starts,
             lambda n: n.kind == "exit-raise",
             skip_node=lambda n: n in rebuf,
-            skip_edge=both(scenario(gn, env_delivered), lambda a, b, lab: lab == "exc" and fut_query(a)),
+            skip_edge=both(Scenario(gn, dn, env_delivered).skip, lambda a, b, lab: lab == "exc" and fut_query(a), gn.exc_route("CancelledError")),  # (fixpoint: the decision may travel through locals / an inlined predicate)
             include_start=True,
         )
         if w is not None:
